@@ -113,7 +113,9 @@ GROUP_NAMES = ['grp', 'bfile', 'outset']
 GROUP_MEMBERS = [('a', '{root}.a', '.a'), ('bed', '{root}.bed', '.bed'), ('bim', '{root}.bim', '.bim'),
                  ('vcf.gz', '{root}.vcf.gz', '.vcf.gz'), ('idx', '{root}.vcf.idx', '.vcf.idx'), ('log', 'log-{root}.txt', None)]
 EXTENSIONS = ['.txt', '.vcf.bgz', '.tar.gz', ' (1).txt', ".it's", '.$x']
-JOB_NAMES = [None, None, 'align', 'same', 'same', 'two words', "o'brien", 'a/b', 'x' * 40, 'ünï-cöde', '$(id)', 'semi;colon']
+# long names: the scratch directory is `<sanitized name, cut>-<token>`; jobs that share a long name must still get distinct directories
+JOB_NAMES = [None, None, 'align', 'same', 'same', 'two words', "o'brien", 'a/b', 'x' * 40, 'ünï-cöde', '$(id)', 'semi;colon',
+             'y' * 249, 'y' * 249, 'w' * 255, 'w' * 255, 'z' * 300, 'z' * 300, 'long name with spaces ' * 14]
 INPUT_PATHS = [
     'gs://in-bucket/data/a.txt', 'gs://in-bucket/data/b.vcf.bgz', 'gs://in-bucket/dir with space/file name.txt',
     "gs://in-bucket/it's/o'file.txt", 'gs://in-bucket/dollar/$HOME.txt', 'gs://in-bucket/same/part-0', 'gs://other/same/part-0',
@@ -181,7 +183,7 @@ class Gen:
         p_py = 0.0 if self.mode in ('tokens', 'digits') else r.choice([0.0, 0.25, 0.5])
         rank = list(range(nj))
         r.shuffle(rank)  # rank[k] = job index processed k-th; consumers only read from earlier-processed jobs
-        same_name = r.choice(['same', None])
+        same_name = r.choice(['same', None, 'v' * 260])
         for j in range(nj):
             kind = 'python' if r.random() < p_py else 'bash'
             name = same_name if self.mode == 'tokens' else r.choice(JOB_NAMES)
